@@ -5,10 +5,11 @@ import DswModel.Lemmas.Defs
 `Mask.Le`, `succCount` and `TrimClosed` are definitionally the `Mask.Sub`, `succIn` and `Closed` of
 `Props/C03.lean` (which imports this file).
 
-Everything lives in the namespace `Dsw.Trim`, so that the general-purpose facts proved here
-(`inducedAccessor_ent`, `Acc.row_natCast`, `obtainLatters_length`, …) do not clash with the
-same-named lemmas of `Lemmas/DeBruijn.lean` / `Lemmas/Discover.lean`, which this file must not
-import. -/
+Everything lives in the namespace `Dsw.Trim` (use `Trim.name` from `Dsw`, or `open Trim`), and the
+general-purpose facts that other lemma files also prove under the same name carry the suffix
+`_trim` (`inducedAccessor_ent_trim`, `inducedAccessor_size_trim`, `Acc.row_natCast_trim`,
+`obtainLatters_length_trim`, `mem_obtainLatters_trim`, `obtainLatters_getElem?_trim`), so this file
+can be imported together with `Lemmas/DeBruijn.lean` and `Lemmas/Discover.lean`. -/
 namespace Dsw.Trim
 
 /-! ### counting `true`s in Boolean lists -/
@@ -273,17 +274,17 @@ theorem trimLoop_ne_outOfFuel {k t : Nat} {m : Mask} (hm : m.size = 4 ^ k) :
 
 /-! ### reading the induced accessor -/
 
-theorem inducedAccessor_size (k : Nat) (s : Mask) : (inducedAccessor k s).size = 4 ^ k := by
+theorem inducedAccessor_size_trim (k : Nat) (s : Mask) : (inducedAccessor k s).size = 4 ^ k := by
   simp [inducedAccessor]
 
-theorem obtainLatters_length (k v : Nat) : (obtainLatters k v).length = 4 := by
+theorem obtainLatters_length_trim (k v : Nat) : (obtainLatters k v).length = 4 := by
   simp [obtainLatters]
 
-theorem obtainLatters_getElem? (k v j : Nat) (hj : j < 4) :
+theorem obtainLatters_getElem?_trim (k v j : Nat) (hj : j < 4) :
     (obtainLatters k v)[j]? = some ((v * 4 + j) % 4 ^ k) := by
   simp [obtainLatters, hj]
 
-theorem mem_obtainLatters {k v w : Nat} :
+theorem mem_obtainLatters_trim {k v w : Nat} :
     w ∈ obtainLatters k v ↔ ∃ j, j < 4 ∧ w = (v * 4 + j) % 4 ^ k := by
   simp [obtainLatters, eq_comm]
 
@@ -295,7 +296,7 @@ theorem inducedAccessor_getD (k : Nat) (s : Mask) (v : Nat) (hv : v < 4 ^ k) :
       else Array.replicate 4 (-1) := by
   simp [inducedAccessor, Array.getD_eq_getD_getElem?, hv]
 
-theorem Acc.row_natCast (a : Acc) (v : Nat) (hv : v < a.size) : a.row (v : Int) = a.getD v #[] := by
+theorem Acc.row_natCast_trim (a : Acc) (v : Nat) (hv : v < a.size) : a.row (v : Int) = a.getD v #[] := by
   unfold Acc.row
   have h1 : ¬ ((v : Int) < 0) := by omega
   have h2 : (0 : Int) ≤ v ∧ (v : Int) < (a.size : Int) := by omega
@@ -303,16 +304,16 @@ theorem Acc.row_natCast (a : Acc) (v : Nat) (hv : v < a.size) : a.row (v : Int) 
 
 /-- entry `(v, j)` of the induced accessor: the `j`-th shift-successor of `v` when both ends are
 marked, `-1` otherwise. -/
-theorem inducedAccessor_ent (k : Nat) (s : Mask) (v j : Nat) (hv : v < 4 ^ k) (hj : j < 4) :
+theorem inducedAccessor_ent_trim (k : Nat) (s : Mask) (v j : Nat) (hv : v < 4 ^ k) (hj : j < 4) :
     (inducedAccessor k s).ent v j =
       if s.getD v false = true ∧ s.getD ((v * 4 + j) % 4 ^ k) false = true then
         (((v * 4 + j) % 4 ^ k : Nat) : Int) else -1 := by
   unfold Acc.ent
-  rw [Acc.row_natCast _ _ (by rw [inducedAccessor_size]; exact hv), inducedAccessor_getD k s v hv]
+  rw [Acc.row_natCast_trim _ _ (by rw [inducedAccessor_size_trim]; exact hv), inducedAccessor_getD k s v hv]
   by_cases h1 : s.getD v false = true
   · rw [if_pos h1]
     simp only [Array.getD_eq_getD_getElem?, List.getElem?_toArray, List.getElem?_map,
-      obtainLatters_getElem? k v j hj, Option.map_some, Option.getD_some, h1, true_and]
+      obtainLatters_getElem?_trim k v j hj, Option.map_some, Option.getD_some, h1, true_and]
     by_cases h2 : s[(v * 4 + j) % 4 ^ k]?.getD false = true
     · simp [h2]
     · simp [h2]
@@ -321,10 +322,10 @@ theorem inducedAccessor_ent (k : Nat) (s : Mask) (v j : Nat) (hv : v < 4 ^ k) (h
 
 /-- the induced accessor of any mask is an arc subset of the de Bruijn graph. -/
 theorem inducedAccessor_wfdb (k : Nat) (s : Mask) : WFdB k (inducedAccessor k s) := by
-  refine ⟨inducedAccessor_size k s, fun v hv => ⟨?_, fun j hj => ?_⟩⟩
+  refine ⟨inducedAccessor_size_trim k s, fun v hv => ⟨?_, fun j hj => ?_⟩⟩
   · rw [inducedAccessor_getD k s v hv]
-    split <;> simp [obtainLatters_length]
-  · rw [inducedAccessor_ent k s v j hv hj]
+    split <;> simp [obtainLatters_length_trim]
+  · rw [inducedAccessor_ent_trim k s v j hv hj]
     split <;> simp
 
 /-- a row of the induced accessor has an arc iff the vertex is marked and has a marked successor. -/
@@ -361,7 +362,7 @@ theorem inducedAccessor_row_any (k : Nat) (s : Mask) (v : Nat) (hv : v < 4 ^ k) 
 theorem obtainVertices_inducedAccessor {k t : Nat} {s : Mask} (hs : s.size = 4 ^ k) (ht : 1 ≤ t)
     (hc : TrimClosed k t s) : obtainVertices (inducedAccessor k s) = s.indices := by
   unfold obtainVertices Mask.indices
-  rw [inducedAccessor_size, hs]
+  rw [inducedAccessor_size_trim, hs]
   apply List.filter_congr
   intro v hv
   rw [List.mem_range] at hv
@@ -370,6 +371,55 @@ theorem obtainVertices_inducedAccessor {k t : Nat} {s : Mask} (hs : s.size = 4 ^
   · have := hc v h1
     simp [h1]; omega
   · simp at h1; simp [h1]
+
+/-- reading an accessor at an `Int` row index below its size: either the index denotes (after
+Python's wrap-around of negative indices) a row `u`, the same for all accessors of that size, or
+every read yields `-1`. -/
+theorem Acc.ent_int_cases (n : Nat) (v : Int) (hv : v < n) :
+    (∃ u : Nat, u < n ∧ ∀ a : Acc, a.size = n → ∀ j, a.ent v j = a.ent (u : Int) j) ∨
+    (∀ a : Acc, a.size = n → ∀ j, a.ent v j = -1) := by
+  by_cases h0 : v < 0
+  · by_cases h1 : 0 ≤ v + n
+    · refine Or.inl ⟨(v + n).toNat, by omega, fun a ha j => ?_⟩
+      subst ha
+      unfold Acc.ent
+      rw [Acc.row_natCast_trim _ _ (by omega)]
+      unfold Acc.row
+      have h2 : 0 ≤ v + (a.size : Int) ∧ v + (a.size : Int) < (a.size : Int) := by omega
+      simp only [h0, if_true, h2, and_self]
+    · refine Or.inr fun a ha j => ?_
+      subst ha
+      unfold Acc.ent Acc.row
+      have h2 : ¬ (0 ≤ v + (a.size : Int) ∧ v + (a.size : Int) < (a.size : Int)) := by omega
+      simp [h0, h2]
+  · refine Or.inl ⟨v.toNat, by omega, fun a ha j => ?_⟩
+    have : ((v.toNat : Nat) : Int) = v := by omega
+    rw [this]
+
+/-- enlarging the mask keeps every arc of the induced accessor (`Nat` row index). -/
+theorem inducedAccessor_ent_mono_nat {k : Nat} {s s' : Mask} (h : Mask.Le s s') (v j : Nat)
+    (hv : v < 4 ^ k) (hj : j < 4) (hent : 0 ≤ (inducedAccessor k s).ent v j) :
+    (inducedAccessor k s').ent v j = (inducedAccessor k s).ent v j := by
+  rw [inducedAccessor_ent_trim k s v j hv hj] at hent ⊢
+  rw [inducedAccessor_ent_trim k s' v j hv hj]
+  split at hent
+  · rename_i hs
+    rw [if_pos ⟨h _ hs.1, h _ hs.2⟩, if_pos hs]
+  · omega
+
+/-- enlarging the mask keeps every arc of the induced accessor (Python row index, negative
+indices wrap). -/
+theorem inducedAccessor_ent_mono {k : Nat} {s s' : Mask} (h : Mask.Le s s') (v : Int) (j : Nat)
+    (hv : v < (4 : Int) ^ k) (hj : j < 4) (hent : 0 ≤ (inducedAccessor k s).ent v j) :
+    (inducedAccessor k s').ent v j = (inducedAccessor k s).ent v j := by
+  have hv' : v < ((4 ^ k : Nat) : Int) := by
+    rw [Int.natCast_pow]; exact hv
+  rcases Acc.ent_int_cases (4 ^ k) v hv' with ⟨u, hu, hr⟩ | hr
+  · rw [hr _ (inducedAccessor_size_trim k s)] at hent ⊢
+    rw [hr _ (inducedAccessor_size_trim k s')]
+    exact inducedAccessor_ent_mono_nat h u j hu hj hent
+  · rw [hr _ (inducedAccessor_size_trim k s)] at hent
+    omega
 
 /-! ### `connect_coding_graph` for thresholds other than 1 -/
 
